@@ -426,7 +426,7 @@ def UOut.value (o : UOut K) (F : K → K) (x : K) : K :=
 /-- the `out=` fix-up of `__array_ufunc__`: when an `out` array was given (in-place operators pass
     the left operand) and the rule returned a coefficient `mul ≠ 1`, the raw buffer is scaled,
     `multiply(out_func, mul, out=out_func)` — a plain ndarray operation that does not re-enter the
-    dispatcher (since fix db741b8; before it `multiply(out, mul, out=out)` dispatched on the out
+    dispatcher (since fix 8405e15; before it `multiply(out, mul, out=out)` dispatched on the out
     array's stale unit and could recurse without end).  `some f`: the buffer was multiplied by `f`;
     `none` would be non-termination. -/
 def outFixup (_pre : Prefixes K) (_t : Lut K) (_oldUnit : UnitV K) (mul : K) : Except Err (Option K) :=
